@@ -12,6 +12,8 @@ var engines = map[string]sim.Engine{
 		switch env.Prop {
 		case "C10":
 			execsim.RunC10(env)
+		case "C13":
+			execsim.RunC13(env)
 		default:
 			panic("execsim: unknown property " + env.Prop)
 		}
